@@ -1,4 +1,4 @@
-"""C11, static part for redis / amqp / kafka: the tie between the generated access programs
+"""C11, static part for redis / amqp / kafka / http / dns: the tie between the generated access programs
 (coq/gen/StagesSrc.v), the generated shapes (coq/gen/StageShapes.v) and the implementation.
 
 a. every item the aggregate run of C11 pushed through the stages (request / response maps as
@@ -18,7 +18,7 @@ import re
 
 import vlib
 
-EXTS = ["redis", "amqp", "kafka"]
+EXTS = ["redis", "amqp", "kafka", "http", "dns"]
 STAGES = ["summarize", "represent"]
 
 
@@ -33,7 +33,7 @@ def site_of(src, o):
     """site number of an observed panic (None: not an assertion inside the translated files)"""
     if not o.get("panic"):
         return 0
-    if o.get("kind") != "assert" or o.get("file") not in src["files"]:
+    if o.get("kind") not in ("assert", "index") or o.get("file") not in src["files"]:
         return None
     return (src["files"].index(o["file"]) + 1) * src["mul"] + o["line"]
 
@@ -58,7 +58,7 @@ def wmax(s):
         return "s"
     if k == "strtag":
         return s["s"]
-    if k == "arr":
+    if k in ("arr", "arr1"):
         return [wmax(s["e"])]
     if k == "opt":
         return wmax(s["e"])
@@ -76,6 +76,8 @@ def wmin(s):
         return None
     if k == "arr":
         return []
+    if k == "arr1":
+        return [wmin(s["e"])]
     if k == "obj":
         return {f[0]: wmin(f[1]) for f in s["fs"]}
     return wmax(s)
@@ -96,6 +98,10 @@ def variants(s):
         yield from variants(s["e"])
     elif k == "arr":
         yield []
+        for v in variants(s["e"]):
+            yield [v]
+        yield [wmax(s["e"]), wmax(s["e"])]
+    elif k == "arr1":
         for v in variants(s["e"]):
             yield [v]
         yield [wmax(s["e"]), wmax(s["e"])]
@@ -176,7 +182,9 @@ Definition ext_of (e : nat) : stmt * stmt * list alt :=
   match e with
   | 0 => (prog_redis_summarize, prog_redis_represent, alts_redis)
   | 1 => (prog_amqp_summarize, prog_amqp_represent, alts_amqp)
-  | _ => (prog_kafka_summarize, prog_kafka_represent, alts_kafka)
+  | 2 => (prog_kafka_summarize, prog_kafka_represent, alts_kafka)
+  | 3 => (prog_http_summarize, prog_http_represent, alts_http)
+  | _ => (prog_dns_summarize, prog_dns_represent, alts_dns)
   end.
 Definition out_eqb (r : res unit) (n : nat) : bool :=
   match r with Ok _ => Nat.eqb n 0 | Panic s => negb (Nat.eqb n 0) && Nat.eqb s n | _ => false end.
@@ -474,5 +482,5 @@ def c11(ctx):
         "harness/cmd/vh-translate/stages*.go (go/ast translation of Summarize/Represent into access programs; its assumptions are listed in the header of gen/StagesSrc.v) "
         "and stageshapes.go (reflection over the emitted Go values; pairing rules in the header of gen/StageShapes.v): exercised by the model-vs-implementation check, not proved",
         "skeleton abstraction of JSON values (harness/cmd/vh-stages): strings up to %d printable bytes and integral numbers below 2^31 recorded, others only by type; keys escaped injectively" % STRMAX,
-        "panics that are not failed type assertions inside main.go/helpers.go of the extension are outside the model (%d such runs this time)" % outside,
+        "panics that are not failed type assertions or constant indices of too short slices inside main.go/helpers.go of the extension are outside the model (%d such runs this time)" % outside,
     ]
